@@ -488,6 +488,55 @@ fn adapters(rep: &mut Report) {
             if skipped != expect {
                 problems.push("skip().step_by() sees a different sequence".into());
             }
+            // an iterator used in pieces: by_ref().take(k) then the rest; peekable(); fuse(); chain(); zip(); a None in
+            // the middle does not revive it
+            for k in [0usize, 1, 2, n / 2, n.saturating_sub(1), n, n + 2] {
+                let mut it = c.evaluator().into_iter();
+                let head: Vec<_> = it.by_ref().take(k).map(|sd| sig(&sd)).collect();
+                let tail: Vec<_> = it.by_ref().map(|sd| sig(&sd)).collect();
+                if head[..] != base[..k.min(n)] || tail[..] != base[k.min(n)..] {
+                    problems.push(format!("by_ref().take({}) then the rest: {} + {} showdowns, not the sequence split at {}", k, head.len(), tail.len(), k));
+                }
+                if it.next().is_some() || it.by_ref().count() != 0 {
+                    problems.push(format!("after by_ref().take({}) and draining, the iterator yields again", k));
+                }
+            }
+            {
+                let mut pk = c.evaluator().into_iter().peekable();
+                let mut got = vec![];
+                loop {
+                    let peeked = pk.peek().map(|sd| sig(sd));
+                    let peeked_again = pk.peek().map(|sd| sig(sd));
+                    let nx = pk.next().map(|sd| sig(&sd));
+                    if peeked != nx || peeked != peeked_again {
+                        problems.push("peekable(): peek() and next() disagree".into());
+                        break;
+                    }
+                    match nx {
+                        Some(x) => got.push(x),
+                        None => break,
+                    }
+                }
+                if got != base {
+                    problems.push("peekable() sees a different sequence".into());
+                }
+                let fused: Vec<_> = c.evaluator().into_iter().fuse().map(|sd| sig(&sd)).collect();
+                if fused != base {
+                    problems.push("fuse() sees a different sequence".into());
+                }
+                let chained: Vec<_> = c.evaluator().into_iter().chain(c.evaluator().into_iter()).map(|sd| sig(&sd)).collect();
+                if chained.len() != 2 * n || chained[..n] != base[..] || chained[n..] != base[..] {
+                    problems.push("chain() of two evaluators of the same configuration is not the sequence twice".into());
+                }
+                let zipped = c.evaluator().into_iter().zip(c.evaluator().into_iter()).filter(|(a, b)| sig(a) == sig(b)).count();
+                if zipped != n {
+                    problems.push(format!("zip() of two evaluators of the same configuration: {} equal pairs of {}", zipped, n));
+                }
+                let maxed = c.evaluator().into_iter().map(|sd| sig(&sd)).max();
+                if maxed != base.iter().cloned().max() {
+                    problems.push("max() over the iterator differs".into());
+                }
+            }
             (n, problems)
         })
     });
@@ -508,7 +557,7 @@ fn adapters(rep: &mut Report) {
         }
     }
     rep.machine(sds.max(1), sds.max(1), n_cfg);
-    rep.sub("iterator-adapters", "39 configurations (ranges with and without flop cards, three with an empty range): count(), last(), nth(k) for k around both ends (and count() of the rest), fold, size_hint before every next(), skip().step_by() must agree with the sequence repeated next() yields (which the other families compare with M-deals)", n_cfg * 12, n_cfg, false, json!({"showdowns_in_base_runs": sds}));
+    rep.sub("iterator-adapters", "39 configurations (ranges with and without flop cards, three with an empty range): count(), last(), nth(k) for k around both ends (and count() of the rest), fold, size_hint before every next(), skip().step_by(), by_ref().take(k) then the rest, peekable(), fuse(), chain() and zip() of two evaluators must agree with the sequence repeated next() yields (which the other families compare with M-deals)", n_cfg * 12, n_cfg, false, json!({"showdowns_in_base_runs": sds}));
 }
 
 pub fn replay(case: &Value) -> Value {
